@@ -67,6 +67,28 @@ CHECKS["C18"] = (
     "DESIGN.md §3 C18",
 )
 
+CHECKS["C01"] = (
+    "exploration",
+    "invariant-at-a-hook monitor: deep structural+identity snapshot of receiver and arguments around every copy-on-write helper call on generated classes, with callback-fault and sys.monitoring line-failpoint abort points on replayed states",
+    "Generated spec classes (grammar in vlib/classgen.py) are driven through random histories; every judged helper call without "
+    "_inplace=True (11 helper kinds x call forms x valid/invalid argument classes) is bracketed by snapshots of the receiver (all "
+    "caches saturated, so comparison is strict) and of the freshly built argument objects, whether it returns or raises. For a sample "
+    "of calls every user-callback invocation and up to N executed library lines are turned into abort points (state rebuilt by "
+    "deterministic replay) and the same comparison is made. Held = no difference on the executions observed.",
+    "Trusted: snapshot walker vlib/snap.py; pure transform pool. Limits: statement-start abort points only; frozen and do_not_copy=True classes excluded (C07 / by design).",
+    "DESIGN.md §3 C01",
+)
+CHECKS["C04"] = (
+    "fault_enumeration",
+    "invariant-at-a-hook monitor with enumerated failures: deep snapshot of receiver, arguments, every other live instance and class-level attributes around every operation that raises; failures = ill-typed value per position, missing target, unknown keyword, raising transform, InjectedFault at every (user callback, i-th invocation)",
+    "Every operation of the alphabet (constructor, assignment, deletion, all helpers, in place and copy-on-write) is made to fail in "
+    "each enumerated way on states reached by random histories over generated classes; for every raising execution the snapshot of all "
+    "pre-existing objects must be identical afterwards. Callback faults are enumerated completely per operation (every invocation seen "
+    "in an unarmed run, state rebuilt by replay).",
+    "Trusted: snapshot walker; faults fire at callback entry. The constructor's half-built instance is not a pre-existing object.",
+    "DESIGN.md §3 C04",
+)
+
 NOT_YET = {}
 
 
